@@ -4,3 +4,23 @@ NOTES = ("All checks decide by runtime monitoring (see DESIGN.md). Exit codes: 0
          "or a shard died). Known findings are listed in known_findings.json.")
 NOT_YET = {}
 CHECKS = {}
+
+def _c(category, text, note, technique):
+    return {'category': category, 'text': text, 'note': note, 'technique': technique}
+
+CHECKS['C01'] = _c('exploration',
+    "Differential runtime monitoring of the real codec: every message class (158) x boundary-biased seeded values is serialised by the real code and compared byte-for-byte with an independent reference codec driven by a pinned layout table; round trip through deserialize, the four dispatchers and real connection objects (plain/obfuscated); obfuscation vs a reference for all lengths 0..300 (thorough 0..1100) x 5+ keys. Held on the values explored; not a proof over the whole value domain.",
+    "Trusts pinned/layout.json + pinned/vectors.json (extracted at the pinned commit, the reference is re-verified against 324 hand-written unit-test vectors in every shard); values stay inside the stated wire domain; zlib's byte stream itself is not pinned.",
+    "differential monitoring against an independent reference codec + pinned layout")
+CHECKS['C09'] = _c('exploration',
+    "Runtime contract monitoring of the real naming strategies: ~20k (thorough ~1M) (remote path, chain, pre-existing directory content) sub-cases on a real temp file system; oracle evaluates containment by realpath, name validity and freshness of every returned (dir, name). The first 448 pairs are a fixed enumeration of short paths over 11 component kinds. Workload B (schedules of concurrent equally named downloads) is run on the simulated world.",
+    "Freshness is only demanded of chains whose last strategy is NumberDuplicate; paths without any file-name component ('', '.', '..' only) may be rejected; OS limits (NAME_MAX) and symlinks are not modelled.",
+    "postcondition monitoring over generated inputs on a real file system")
+CHECKS['C19'] = _c('exploration',
+    "Reference-model monitoring: the real logged-in client is fed seeded notification sequences (length 1..12, 25 kinds, 2 rooms x 3 users) by the scripted server; after every notification all room fields and user fields are compared with a pure fold written from the statement, emitted events are checked for target/blocked filtering, private-message acks are checked at the server. Quick enumerates all length-1 sequences over a 49-letter alphabet, thorough all length<=2 (2450).",
+    "Model decisions where the statement is silent (RoomList, rooms only named by chat lines, list order, user_count/country) are not judged; see vf/roommodel.py.",
+    "online comparison with an executable reference model (fold) + event trace rules")
+CHECKS['C20'] = _c('exploration',
+    "Trace checking of grant histories: the real limiters inside a real Network are driven under virtual time by 1-4 consumers with seeded gap patterns and run-time limit changes; every window of every history is checked against the exact token-bucket bound (per limiter object, and across changes), an icontract class invariant (0 <= bucket <= limit) runs after every public method, suspension while unlimited and bounded return time (120 virtual s) are monitored; plus two-client transfers with limits observed at send_data/receive_data.",
+    "Virtual time; the stall rule is judged only with seeded 0.2-3 ms timer lateness (exactly periodic virtual timers phase-lock the 10 ms polling, which no real clock does); <= 4 consumers.",
+    "offline trace checker over recorded grant histories + icontract invariant")
